@@ -22,6 +22,9 @@ FIN = {"expand_derivatives"}
 SV, DF = {"seedvar"}, {"diff"}
 
 
+MATH = {"exp", "ln", "sin", "cos", "tan", "sinh", "cosh", "tanh", "asin", "atan"}
+
+
 def slices(tier):
     q = tier == "quick"
     kw = dict(finalops=FIN, only_final=True, nenv=1)
@@ -35,6 +38,8 @@ def slices(tier):
         Slice("scalar", [W, F], S, 4, lits=[LIT["two"]], jets=J1, levels=[SV, S, DF, FIN], **kw),
         Slice("scalar-expr", [W, F], S, 5, jets=J1, levels=[{"mul", "add"}, SV, {"mul", "pow", "div", "sqrt"}, DF, FIN], **kw),
         Slice("scalar-2", [W, F], S, 5, jets=J1, levels=[SV, {"mul", "pow"}, {"mul", "add", "div"}, DF, FIN], **kw),
+        # chain rule through exp, ln, sin, ... (w = 0, w1 = 1 at the point)
+        Slice("math", [W, ("w1", ()), F], MATH | {"mul"}, 5, jets=J1, fixed={"w": 0, "w1": 1}, levels=[SV, MATH | {"mul"}, {"exp", "ln", "sin", "cos", "mul"}, DF, FIN], **dict(kw, chain="strict")),
         # repeated diff
         Slice("scalar-dd", [W, F], S, 5, jets=J1, levels=[SV, {"mul", "pow", "div"}, DF, DF, FIN], **kw),
         # nested variables: a plain variable between v and f
